@@ -162,6 +162,8 @@ func c10(c *Ctx) (*report.Result, error) {
 	checkLockPairing(c, res, "O10.11", []string{"transport/mux", "transport/mux/session"}, 6)
 	res.RuleDoc["O10.12"] = "silent death is detected: both session factories hand yamux a config with keep-alive enabled (yamux.DefaultConfig(), or a literal with EnableKeepAlive = true, never switched off) - the keep-alive goroutine is the only code that closes a session whose peer stopped answering"
 	checkYamuxKeepAlive(c, res, "O10.12")
+	res.RuleDoc["O10.14"] = "a connection that failed its first ping gives its permit back: every function of the module that returns its named error result has assigned it somewhere (same analysis as O11.10) - a shadowed err makes the connect loop register a session that never answered and keep its slot"
+	checkNamedErrorResultAssigned(c, res, "O10.14", 4)
 	res.RuleDoc["O10.13"] = "the providers' single accept / dial loop cannot be parked by one peer: the TLS wrappers only construct the connection (tls.Server / tls.Client) and nothing in transport/mux runs the handshake itself, so it happens under yamux's first ping and its write timeout"
 	checkLazyTLSWrappers(c, res, "O10.13")
 	res.RuleDoc["O10.10"] = "no swallowed error in the files the mechanism lives in: no function returns a nil error on a path on which an error obtained from a call is known to be non-nil (io.EOF from a stream Recv, the normal end of a receive loop, is the one accepted idiom)"
